@@ -5,7 +5,7 @@
 //! Case: {"concurrency": null|k, "outer": bool (the whole run is polled inside an application span),
 //!        "scenarios": [{"id": s, "retry": null|n, "fails": k,
 //!         "steps": [{"id": st, "pre": n, "yields": n, "post": n, "inner": bool (messages are emitted inside a user
-//!                    span nested in the step's span)}]}]}
+//!                    span nested in the step's span), "under": bool (the message text contains double underscores)}]}]}
 //! History records: ["cb", scenario, step, attempt, span] ["emit", scenario, message id, span] ["close", span] ["sub", span] ["fwd"]
 //!                  ["ev", <event>] where a Log event is ["Scen", f, r, s, retries, ["LogMsg", message id | null]]
 
@@ -57,7 +57,7 @@ impl Future for YieldN {
 
 #[derive(Default)]
 struct St {
-    steps: BTreeMap<u64, (u64, u64, u64, bool)>, // step id -> pre, yields, post, inner
+    steps: BTreeMap<u64, (u64, u64, u64, bool, bool)>, // step id -> pre, yields, post, inner, under
     nsteps: BTreeMap<u64, u64>,
     fails: BTreeMap<u64, u64>,
     visits: BTreeMap<u64, u64>,
@@ -69,14 +69,19 @@ thread_local! {
     static ST: RefCell<St> = RefCell::new(St::default());
 }
 
-fn emit(sid: u64, span: u64) {
+fn emit(sid: u64, span: u64, under: bool) {
     let m = ST.with(|s| {
         let mut s = s.borrow_mut();
         s.next_msg += 1;
         s.next_msg
     });
     verif_trace::record("emit", sid * 1_000_000 + m, span);
-    tracing::info!("LOGMSG#{m}#");
+    if under {
+        // text with double underscores (the collector's own separator): `Foo.__init__(self)`, `snake__case`
+        tracing::info!("Foo.__init__ LOGMSG#{m}# snake__case");
+    } else {
+        tracing::info!("LOGMSG#{m}#");
+    }
 }
 
 fn logging_step(_: &mut W, ctx: step::Context) -> LocalBoxFuture<'_, ()> {
@@ -84,9 +89,9 @@ fn logging_step(_: &mut W, ctx: step::Context) -> LocalBoxFuture<'_, ()> {
         let mut it = ctx.step.value.split(' ');
         let sid: u64 = it.nth(1).and_then(|n| n.parse().ok()).unwrap_or(0);
         let stid = ctx.step.position.line as u64;
-        let (pre, yields, post, inner, last, k, nfail) = ST.with(|s| {
+        let (pre, yields, post, inner, under, last, k, nfail) = ST.with(|s| {
             let mut s = s.borrow_mut();
-            let (pre, yields, post, inner) = s.steps.get(&stid).copied().unwrap_or((0, 0, 0, false));
+            let (pre, yields, post, inner, under) = s.steps.get(&stid).copied().unwrap_or((0, 0, 0, false, false));
             let n = s.nsteps.get(&sid).copied().unwrap_or(1);
             let no = s.step_no.entry(sid).or_insert(0);
             if *no == 0 {
@@ -99,7 +104,7 @@ fn logging_step(_: &mut W, ctx: step::Context) -> LocalBoxFuture<'_, ()> {
                 *no = 0;
             }
             let k = s.visits.get(&sid).copied().unwrap_or(1) - 1;
-            (pre, yields, post, inner, last, k, s.fails.get(&sid).copied().unwrap_or(0))
+            (pre, yields, post, inner, under, last, k, s.fails.get(&sid).copied().unwrap_or(0))
         });
         let span = tracing::Span::current().id().map_or(0, |i| i.into_u64());
         verif_trace::record("cbspan", sid * 1_000_000 + stid * 10 + k, span);
@@ -109,9 +114,9 @@ fn logging_step(_: &mut W, ctx: step::Context) -> LocalBoxFuture<'_, ()> {
                 if inner {
                     let user = tracing::info_span!("user_inner");
                     let _g = user.enter();
-                    emit(sid, span);
+                    emit(sid, span, under);
                 } else {
-                    emit(sid, span);
+                    emit(sid, span, under);
                 }
             }
         };
@@ -178,6 +183,7 @@ fn main() {
                         st["yields"].as_u64().unwrap_or(0),
                         st["post"].as_u64().unwrap_or(0),
                         st["inner"].as_bool().unwrap_or(false),
+                        st["under"].as_bool().unwrap_or(false),
                     ),
                 );
             });
